@@ -69,3 +69,21 @@ Proof.
   exists (fst r). unfold Html.html_render. rewrite Hr. reflexivity.
 Qed.
 Print Assumptions c09_total.
+
+(* Beyond single-table histories.  A row can be made longer than its table is
+   wide (a *Row attached to a second table and then extended: the second table
+   learns of the column, the first does not), so the view a renderer sees need
+   not satisfy wf_view.  Since the D21 repair the text renderer is total on
+   such views too: whatever the rows' lengths, as long as the view carries one
+   alignment slot per column plus column 0 and the cells report the sizes Cell
+   computes, it does not panic (the surplus cells are measured, but neither
+   widen a column nor are laid out).  CSV is total on every view whatsoever
+   (c09_csv_total). *)
+Theorem c09_text_any_rows : forall (W : bytes -> nat) d v,
+  length (v_align v) = S (v_ncols v) -> TextLayout.dec_ok d -> TextLayout.cells_ok W v ->
+  render_string (Text.text_render W d v) <> Panic.
+Proof.
+  intros W d v Hal Hd Hc. apply c09_render_string_no_panic.
+  exact (TextZero.text_no_panic_any_rows W d v Hal Hd Hc).
+Qed.
+Print Assumptions c09_text_any_rows.
